@@ -20,7 +20,7 @@ Proof. exact enc7_shape. Qed.
 Print Assumptions C16_shape.
 
 (* the byte-size header of a packed string/binary array is the sum of (group bytes + length) *)
-Theorem C16_header : forall swp l, (forall e, In e l -> zlen e < 2147483648) ->
+Theorem C16_header : forall swp l, (forall e, In e l -> zlen e < 2147483647) ->
   zlen (concat (map (enc_elem swp true) l)) = packed_byte_size l.
 Proof. exact zlen_concat_elems_packed. Qed.
 Print Assumptions C16_header.
